@@ -1,7 +1,7 @@
 /-
-Helper lemmas for C12: the preparation steps of the repaired `get_program` (marker normalised line
+Helper lemmas for C12: the preparation steps of the repaired `get_program` (marker trimmed line
 by line, blank ends trimmed) turn the text of a decorated program with freely spelled markers into
-the text of its normalised form.
+the text of its trimmed form.
 -/
 import Paroxy.Proofs.HintsRound
 namespace Paroxy.Hints
@@ -54,7 +54,7 @@ theorem linesOk_of (d : Decorated)
     have hm := mem_wholeLabels hl
     exact ⟨(noHash_iff _).mp (h4 L hm), clean_of L (h2 L hm)⟩
 
-/-! ### Lines of the normalised rendering are tight -/
+/-! ### Lines of the trimmed rendering are tight -/
 
 theorem renderHints_getLast (hs : List Hint) (hne : hs ≠ []) (hc : ∀ h ∈ hs, Clean h.label) :
     ∀ x, (renderHints hs).getLast? = some x → isSpacePy x = false := by
@@ -210,10 +210,10 @@ theorem renderLineS_noNL (l : Line) (ms : MarkerStyle) (hc : ∀ c, l = .code c 
     simp [isSpacePy, isSpaceRe] at this
 
 /-- **Preparation of a decorated text**: normalising the markers and trimming the blank ends of
-`decorateS d` gives the normalised text of the decorated program without its blank end lines. -/
+`decorateS d` gives the trimmed text of the decorated program without its blank end lines. -/
 theorem prepare_decorateS (d : List (Line × MarkerStyle)) (hok : LinesOk (d.map Prod.fst))
-    (hne : codeLines (normalised d) ≠ []) :
-    prepare (decorateS d) = decorate (normalised d) := by
+    (hne : codeLines (trimmed d) ≠ []) :
+    prepare (decorateS d) = decorate (trimmed d) := by
   have hcode : ∀ p ∈ d, ∀ c, p.1 = .code c → OkCode c := by
     intro p hp c hc
     exact hok.ok c (mem_codeLines (hc ▸ List.mem_map_of_mem (f := Prod.fst) hp))
@@ -221,7 +221,7 @@ theorem prepare_decorateS (d : List (Line × MarkerStyle)) (hok : LinesOk (d.map
     intro p hp n L hc
     exact hok.whole L (mem_wholeLabels (hc ▸ List.mem_map_of_mem (f := Prod.fst) hp))
   have hdne : d ≠ [] := by
-    intro e; subst e; simp [normalised, core, codeLines] at hne
+    intro e; subst e; simp [trimmed, core, codeLines] at hne
   have hsplit : splitNL (decorateS d) = d.map renderLineS :=
     splitNL_joinNL _ (by simpa using hdne) (by
       intro l hl
@@ -254,7 +254,7 @@ theorem prepare_decorateS (d : List (Line × MarkerStyle)) (hok : LinesOk (d.map
       rw [coreLines_map _ hok0]
       intro e
       have : core (d.map fun p => gap0 p.1) = [] := by simpa using e
-      exact hne (by simp [normalised, this, codeLines])),
+      exact hne (by simp [trimmed, this, codeLines])),
     coreLines_map _ hok0]
   rfl
 
